@@ -126,7 +126,7 @@ impl MaxDen for Rat {
 fn strategy(ei: usize, scalar: i64) -> impl Fn(Tier) -> BoxedStrategy<Case> + Send + Sync {
     move |tier: Tier| {
         let en = TABLE[ei];
-        (gen::window(tier, en.min_n, 24, 100), 0usize..48, any::<bool>())
+        (gen::window(tier, en.min_n, 32, 100), 0usize..48, any::<bool>())
             .prop_flat_map(move |(n, p, decimal)| adversarial(n, en.positive, decimal && scalar != 2, scalar == 0).prop_map(move |xs| Case { spec: Some((en.mk)(n, p)), xs, ints: vec![ei as i64, scalar, n as i64], a: Rat(1, 1), ..Default::default() }))
             .boxed()
     }
@@ -320,6 +320,17 @@ fn ultra_check(case: &Case) -> Verdict {
     }
 }
 
+/// fz_single: table entry, N, secondary parameter, scalar, stream
+pub fn fuzz_decode(u: &mut arbitrary::Unstructured) -> Option<(String, Case)> {
+    let ei = u.int_in_range(0..=TABLE.len() - 1).ok()?;
+    let en = TABLE[ei];
+    let n = en.min_n + u.int_in_range(0..=23usize).ok()?;
+    let p = u.int_in_range(0..=47usize).ok()?;
+    let scalar = u.int_in_range(0..=2i64).ok()?;
+    let xs = crate::fuzzdec::stream(u, en.positive, 160);
+    Some((format!("C07/range/{}/{}", en.name, ["f64", "f32", "Q"][scalar as usize]), Case { spec: Some((en.mk)(n, p)), xs, ints: vec![ei as i64, scalar, n as i64], a: Rat(1, 1), ..Default::default() }))
+}
+
 pub fn clauses() -> Vec<Clause> {
     let mut v = vec![];
     for (ei, en) in TABLE.iter().enumerate() {
@@ -335,7 +346,7 @@ pub fn clauses() -> Vec<Clause> {
             Bound::Cog => "|out| <= (N-1)/2 (positive input)".into(),
         };
         for (scalar, sc, q, t) in [(0i64, "f64", 1500u32, 40_000u32), (1, "f32", 800, 20_000), (2, "Q", 400, 8_000)] {
-            let rule = format!("{}: {b}. N in 2..24 (thorough ..100); grammar stream of 0..14N+20 values (5N+10 in f32/Q) on a decimal or dyadic grid followed by one of: flat stretch of N(1+r)+2 values, step to a level up to 1e9 times smaller then flat, perfectly linear run with a slope tiny against the level, small wiggles around a far level, strictly monotone run. Tolerance: 8 ulps of the bound (8 + N for the quotients of N-term sums: Sma, Alma, CoG, Vsct; of the range width for a bound of 0). Non-trivial: >= 3 values checked and (some value within 1% of a bound, or a flat window occurred).", en.name);
+            let rule = format!("{}: {b}. N in 2..32 and, rarely, one of 64, 65, 100, 127, 128 (thorough ..100 and up to 257); grammar stream of 0..14N+20 values (5N+10 in f32/Q) on a decimal or dyadic grid followed by one of: flat stretch of N(1+r)+2 values, step to a level up to 1e9 times smaller then flat, perfectly linear run with a slope tiny against the level, small wiggles around a far level, strictly monotone run. Tolerance: 8 ulps of the bound (8 + N for the quotients of N-term sums: Sma, Alma, CoG, Vsct; of the range width for a bound of 0). Non-trivial: >= 3 values checked and (some value within 1% of a bound, or a flat window occurred).", en.name);
             v.push(Clause::generated("C07", format!("C07/range/{}/{sc}", en.name), rule, q, t, strategy(ei, scalar), check).with_shard(if scalar == 2 { 50 } else { 250 }));
         }
         if !matches!(en.name, "Echo" | "GTE" | "LTE" | "Tanh" | "PFE") {
